@@ -1620,3 +1620,45 @@ def arr_isin(I, recv, args, kwargs):
     S = _spec()
     USED.add("Index.isin(values): element-wise membership")
     return SArr(recv.shape, lambda i: S.Exists(lambda j: Eq(other.fn(j), recv.fn(i)), 0, other.len, "isj"), "bool", "ndarray")
+
+
+# ----------------------------------------------------------------------------- transcendental element-wise functions (uninterpreted)
+
+def _real_fun(ctx, name, arity=1):
+    memo = ctx.__dict__.setdefault("real_funs", {})
+    if name not in memo:
+        memo[name] = z3.Function(name, *([z3.RealSort()] * arity), z3.RealSort())
+    return memo[name]
+
+
+def _elementwise_uf(I, name, v, extra=()):
+    f = _real_fun(I.ctx, name, 1 + len(extra))
+    USED.add(f"{name}: uninterpreted real function applied element-wise (no numeric properties assumed)")
+    ex = [ops.as_real(e) for e in extra]
+    if isinstance(v, SSeries):
+        return SSeries(v.index, ops.map_arr(v.values, lambda x: f(ops.as_real(x), *ex), dtype="real", kind="ndarray"), v.name)
+    if isinstance(v, SArr):
+        return ops.map_arr(v, lambda x: f(ops.as_real(x), *ex), dtype="real", kind="ndarray")
+    return f(ops.as_real(v), *ex)
+
+
+@lib("numpy.log")
+def np_log(I, args, kwargs):
+    return _elementwise_uf(I, "log", args[0])
+
+
+@lib("numpy.exp")
+def np_exp(I, args, kwargs):
+    return _elementwise_uf(I, "exp", args[0])
+
+
+@lib("scipy.stats.boxcox", "scipy.special.boxcox")
+def sp_boxcox(I, args, kwargs):
+    if len(args) < 2 or is_numlike(args[1]) is False and args[1] is None:
+        raise Undecided("boxcox without a given lambda (optimiser)")
+    return _elementwise_uf(I, "boxcox", to_arr(I, args[0]), extra=(args[1],))
+
+
+@lib("scipy.special.inv_boxcox")
+def sp_inv_boxcox(I, args, kwargs):
+    return _elementwise_uf(I, "inv_boxcox", to_arr(I, args[0]), extra=(args[1],))
